@@ -17,7 +17,7 @@ LEVEL = "exploration"
 NEEDS = ["harness", "cli"]
 RULE = ("C: random call sets x random sample lists (subset, listing order, 1-4 labels, named/unnamed mix, labels with blanks, occasional repeated "
         "entry) -> reference spectrum, then 4 twins: permuted input columns (bytes equal), list permutation keeping first-appearance order (bytes "
-        "equal), label-order permutation (== transpose), --samples vs --samples-file (bytes equal); unknown sample / empty list must fail with empty "
+        "equal), label-order permutation (== transpose), --samples vs --samples-file (bytes equal; also with CRLF / missing final terminator; a samples file with an empty line at the start, between entries or at the end is either rejected or read completely); unknown sample / empty list must fail with empty "
         "stdout. L1: 2-9 labels drawn from 1-2 character names, shape and axis assignment probed with one record. Non-trivial: >=2 populations "
         "of unequal size or order-sensitive counts; distinct = digest(codes, list).")
 ASSUMPTIONS = ["sample names avoid the list syntax characters ',', '=' and tab", "integer counts: exact comparison"]
